@@ -2,6 +2,7 @@
 C13 - no query can crash the host process (partial).
 -/
 import PromqlVerif.LTS.ConcurrentThms
+import PromqlVerif.LTS.WorkerThms
 import PromqlVerif.Proofs.EngInd
 import PromqlVerif.Properties.C04
 namespace PromqlVerif.C13
@@ -26,6 +27,12 @@ theorem pull_panic_is_contained :
 theorem pull_panic_kills_without_recover :
     (LTS.Concurrent.explored { LTS.Concurrent.feat with recovers := false }).all LTS.Concurrent.noCrash = false :=
   LTS.Concurrent.crash_without_recover
+
+/-- the worker group never sends on a closed channel and never closes a channel twice, whenever
+the context is cancelled (both are process-killing panics in goroutines without recover) -/
+theorem worker_group_no_channel_misuse :
+    ∀ s, LTS.Reach (LTS.Worker.sys LTS.Worker.feat) s → LTS.Worker.noCrash s = true :=
+  LTS.Worker.no_crash
 
 variable {V : Type} [Val V]
 
